@@ -11,7 +11,7 @@ survive BOTH are the interesting ones: each is either an equivalent mutant or a 
 import os, re, subprocess, sys, json, shutil, tempfile, concurrent.futures as cf
 
 ENV = dict(os.environ, GOFLAGS="-mod=mod", GOPROXY="off", GOSUMDB="off", GOTOOLCHAIN="local", GOWORK="off")
-REPO = "/repo"
+REPO = os.environ.get("MUTSWEEP_REPO", "/repo")
 SIG = os.environ.get("SIGCHECK", "/verif/bin/sigcheck")
 FILES = ["signal.go", "buffer.go", "allocator.go", "channel.go", "pool.go"]
 PROPS = ["C%02d" % i for i in range(1, 21)]
